@@ -42,6 +42,28 @@ theorem and_high (x n k : Nat) (hx : x < 2 ^ (n + k)) : x &&& ((2 ^ k - 1) * 2 ^
   rw [h1, h2, Nat.add_zero, Nat.mul_comm] at h3
   exact h3.symm
 
+/-- `x & (1 << k)` is bit `k` of `x`, in place. -/
+theorem and_bit (x k : Nat) : x &&& 2 ^ k = x / 2 ^ k % 2 * 2 ^ k := by
+  have hpos : 0 < 2 ^ k := Nat.two_pow_pos k
+  have h1 : (x &&& 2 ^ k) % 2 ^ k = 0 := by
+    rw [Nat.and_mod_two_pow, Nat.mod_self, Nat.and_zero]
+  have h2 : (x &&& 2 ^ k) / 2 ^ k = x / 2 ^ k % 2 := by
+    rw [Nat.and_div_two_pow, Nat.div_self hpos, and_1]
+  have h3 := Nat.div_add_mod (x &&& 2 ^ k) (2 ^ k)
+  rw [h1, h2, Nat.add_zero, Nat.mul_comm] at h3
+  exact h3.symm
+
+/-- `(x & m) == m` for a one-bit mask `m = 2^k`. -/
+theorem and_bit_eq (x k : Nat) : (x &&& 2 ^ k = 2 ^ k) ↔ x / 2 ^ k % 2 = 1 := by
+  rw [and_bit]
+  have hpos : 0 < 2 ^ k := Nat.two_pow_pos k
+  have : x / 2 ^ k % 2 = 0 ∨ x / 2 ^ k % 2 = 1 := by omega
+  rcases this with h | h <;> rw [h]
+  · simp only [Nat.zero_mul]; constructor
+    · intro h0; omega
+    · intro h0; omega
+  · simp only [Nat.one_mul]
+
 -- Results of the translated functions are compared by `decide` in evaluated examples.
 deriving instance DecidableEq for Except
 
